@@ -1,6 +1,7 @@
 SPECIFICATION Spec
 CONSTANTS
   SccFix = "forget"
+  TfcChain = TRUE
   MaxEpochs = 2
   MaxSets = 1
   MaxQueries = 2
